@@ -28,6 +28,11 @@ def mutate(rng, s):
         rng.choice([c for c in s.cbs if not c.alias_of and c.id not in {x.alias_of for x in s.cbs}] or s.cbs).coro = True
         c = [c for c in s.cbs if c.coro][0]
         c.yields = rng.randint(0, 3)
+        # (a callback that yields must not share a group with one that raises: `gather` would leave it running when
+        # the group fails, and which siblings of a failing callback ran is unconstrained — DESIGN 3.2)
+        sib = gen.sibling_map(s).get(c.id, ())
+        if any(a[4] is not None for a in s.acts if a[0] in sib and a[0] != c.id):
+            c.yields = 0
         # the machine's only coroutine callback may sit behind a signature-preserving decorator
         c.wrap = rng.choice(["", "", "wraps", "sig"])
         if s.driver == "sync":
